@@ -148,29 +148,7 @@ def do_run(V, root, versions, hooks, checker, order, tag, trace):
 def scenario(inst, V):
     from jaxtyping._import_hook import Typechecker, _optimized_cache_from_source
     if inst["kind"] == "tags":
-        tags = {}
-        for ck in ("typeguard.typechecked", "beartype.beartype", "typeguard.typechecked ", None):
-            t = _optimized_cache_from_source(Typechecker(ck).get_hash(), "/x/m.py")
-            tags[repr(ck)] = t
-        # distinct checker strings whose md5 hex digests share their first 5 / 8 characters
-        # (found by a birthday search; a tag built from a truncated hash would confuse them)
-        import hashlib
-        for k, n in ((5, 6000), (8, 400000)):
-            seen = {}
-            for i in range(n):
-                name = f"mytc.checker_{i}"
-                pre = hashlib.md5(name.encode()).hexdigest()[:k]
-                if pre in seen:
-                    a, b = seen[pre], name
-                    tags[f"collide{k}:{a}"] = _optimized_cache_from_source(Typechecker(a).get_hash(), "/x/m.py")
-                    tags[f"collide{k}:{b}"] = _optimized_cache_from_source(Typechecker(b).get_hash(), "/x/m.py")
-                    V.reach(f"prefix-collision-{k}")
-                    break
-                seen[pre] = name
-        own = {_PRISTINE("/x/m.py"), _PRISTINE("/x/m.py", optimization=1), _PRISTINE("/x/m.py", optimization=2)}
-        vals = list(tags.values())
-        V.check("tags-distinct", len(set(vals)) == len(vals) and not (set(vals) & own), tags=tags)
-        return dict(tags=tags)
+        return scenario_tags(inst, V)
     root = fresh_forest()
     sys.path.insert(0, root)
     old_prefix, old_dwb = sys.pycache_prefix, sys.dont_write_bytecode
@@ -203,6 +181,63 @@ def scenario(inst, V):
             sys.path.remove(root)
         shutil.rmtree(root, ignore_errors=True)
     return dict(trace=trace)
+
+
+def scenario_tags(inst, V):
+    """O1: the cache file a hooked module is written to differs for every typechecker
+    configuration and from the file of the un-hooked module -- observed on the real cache
+    directory (file names), for the usual checkers, None, a look-alike string, and pairs of
+    strings whose md5 digests share their first 5 / 8 hex characters (birthday search)."""
+    import hashlib
+    import jaxtyping as jt
+    checkers = ["typeguard.typechecked", "beartype.beartype", None, "mytc.typechecked"]
+    for k, n in ((5, 6000), (8, 400000)):
+        seen = {}
+        for i in range(n):
+            name = f"mytc.checker_{i}"
+            pre = hashlib.md5(name.encode()).hexdigest()[:k]
+            if pre in seen:
+                checkers += [seen[pre], name]
+                V.reach(f"prefix-collision-{k}")
+                break
+            seen[pre] = name
+    root = fresh_forest()
+    open(os.path.join(root, "mytc.py"), "w").write("def __getattr__(name):\n    return lambda f, *a, **k: f\n")
+    sys.path.insert(0, root)
+    old_prefix, old_dwb = sys.pycache_prefix, sys.dont_write_bytecode
+    cache = os.path.join(root, "cache")
+    sys.pycache_prefix = cache
+    sys.dont_write_bytecode = False
+
+    def files():
+        out = set()
+        for dp, _, fs in os.walk(cache):
+            out |= {f for f in fs if f.startswith("wq.")}
+        return out
+    tags = {}
+    try:
+        for ck in ["nohook"] + checkers:
+            begin_run(root)
+            before = files()
+            mgr = jt.install_import_hook(["wq"], ck) if ck != "nohook" else None
+            try:
+                importlib.import_module("wq")
+            finally:
+                if mgr is not None:
+                    mgr.uninstall()
+            new = files() - before
+            tags[repr(ck)] = sorted(new)
+    finally:
+        begin_run(root)
+        sys.modules.pop("mytc", None)
+        sys.pycache_prefix, sys.dont_write_bytecode = old_prefix, old_dwb
+        if root in sys.path:
+            sys.path.remove(root)
+        shutil.rmtree(root, ignore_errors=True)
+    # every configuration wrote exactly one new file (=> its name differs from all earlier ones)
+    ok = all(len(v) == 1 for v in tags.values())
+    V.check("tags-distinct", ok, tags=tags)
+    return dict(tags={k: v for k, v in tags.items()})
 
 
 # ---- replay with real interpreter processes ---------------------------------------------
